@@ -80,10 +80,14 @@ def writeStep (o : SaveOpts) (ss1 : SSt) (mp : Str) : SSt :=
     if compr.isSome == want then ss2
     else
       let newMp := if want then mp ++ 46 :: o.format else mp.take (mp.length - ((compr.getD []).length + 1))
+      -- never onto another Manifest in use (repair of finding F8: `Manifest.xz` renamed onto an unrelated `Manifest` of the
+      -- same directory lost one Manifest's content and left two MANIFEST entries naming one file)
+      if ss2.st.loaded.any (·.1 == newMp) then ss2
+      else
       let st' : St := { ss2.st with
         -- the renamed Manifest keeps its position in the load order (repair of finding F29: re-inserted at the
         -- end, a later save of the same loader processed it before a same-directory Manifest it references)
-        loaded := (ss2.st.loaded.filter (·.1 != newMp)).map (fun kv => if kv.1 == mp then (newMp, es'.map (·.1)) else kv),
+        loaded := ss2.st.loaded.map (fun kv => if kv.1 == mp then (newMp, es'.map (·.1)) else kv),
         top := if ss2.st.top == mp then newMp else ss2.st.top }
       { ss2 with st := st', renamed := ss2.renamed ++ [(mp, newMp)],
                  written := setAdd (ss2.written.filter (· != mp)) newMp,
